@@ -19,6 +19,13 @@ CLAIMS = {
  "C02": ("Theorem is_subset_sound for ALL shapes a and well-formed b, plus the is_superset / is_superset_checked corollaries (with the KF1 carve-out inherited "
          "from inference, refuted without it). Correspondence on all level-1 pairs and random related deep pairs; oracle: witness documents of the left "
          "shape checked against the right shape for every accepted pair.", "6/C02"),
+ "C06": ("Theorem paths_agree: for every duplicate-free document the text-path model and the value-path model (serde_json Map + From<&Value>) give the same outcome; "
+         "visitor corollary; witness that duplicates legitimately differ. Correspondence of both paths (incl. JsonVisitor identity) on ~35k documents; oracle: "
+         "from_str(text) == From<&Value>(serde_json(text)) on thousands of random renderings. Known finding KF5 (escaped member names).", "6/C06"),
+ "C17": ("Ten theorems give the defining equations of single-document inference for all documents: scalars, object = member names -> member shapes, "
+         "array classification (equal -> Array, differing -> Tuple in order, objects -> folded Object) and the three key laws of the array-of-objects fold "
+         "(union of keys, everywhere-present keys unchanged, partly-present keys optional). Oracle independent of the model: the implementation's result is "
+         "recomputed from its own results on the sub-documents.", "6/C17"),
  "C10": ("Six theorems prove reflexivity, optional widening, null-in-optional and the similar laws for ALL well-formed shapes; model tied to /repo by "
          "all 103041 level-1 pairs plus random deep related pairs; statements re-evaluated on the implementation's own answers.", "6/C10"),
 }
